@@ -39,6 +39,15 @@ def langs (absK : K → R) (norm : Char) (A : CSC K) : Option R :=
 
 /-! ### reciprocal pivot growth -/
 
+/-- `U(i,j)` as `LUFac.decodeU`, except that positions beyond the rows stored by the supernode read
+as zero (a supernode of a singular factorization may store fewer rows than it has columns; on every
+supernode with `j - fsupc < nsupr` the two decoders agree, see `decodeUg_eq`) -/
+def decodeUg {K : Type} [Inhabited K] [Zero K] [Add K] (F : LUFac K) (i j : Nat) : K :=
+  let f := F.L.fsupc j
+  if i < f then F.U.get i j
+  else if i ≤ j then (if i - f < F.L.nsupr j then F.L.valAt j (i - f) else 0)
+  else 0
+
 variable [One R] [Div R] [BEq R] [Mag K R]
 
 /-- `inv_perm_c[perm_c[j]] = j` (dpivotgrowth.c:86-87) -/
@@ -49,9 +58,11 @@ def invPerm (perm_c : Array Nat) (n : Nat) : Array Nat :=
 def colMaxAbs (A : CSC K) (j : Nat) : R := (A.col j).foldl (fun m e => smax m (Mag.abs1 e.2)) 0
 
 /-- `maxuj`: the entries of column `j` of U kept in column storage, then the `nz_in_U = d + 1`
-leading entries of the column's slice of the supernodal rectangle (`luval = Lval + luptr + d*nsupr`) -/
+leading entries of the column's slice of the supernodal rectangle (`luval = Lval + luptr + d*nsupr`),
+`for (i = 0; i < nz_in_U && i < nsupr; ++i)`: a supernode made of a structurally empty column of a
+singular factorization stores no rows -/
 def colMaxU (F : LUFac K) (j luptr nsupr d : Nat) : R :=
-  (List.range (d + 1)).foldl (fun m i => smax m (Mag.abs1 (F.L.lusup.getD (luptr + d * nsupr + i) default)))
+  (List.range (min (d + 1) nsupr)).foldl (fun m i => smax m (Mag.abs1 (F.L.lusup.getD (luptr + d * nsupr + i) default)))
     (colMaxAbs F.U j)
 
 /-- update of `rpg` by column `j = fsupc + d` (dpivotgrowth.c:98-116) -/
